@@ -17,6 +17,10 @@ Transact == [op |-> "Transact", c |-> "c1"]
 KA == K(97)
 KB == K(98)
 
+\* a batch whose items hold empty containers, sent only while the internal-server failure is on (everything comes back unprocessed,
+\* exactly as it was sent; nothing is stored, so the known deviation about empty containers on the read side stays out of the way)
+EmptiesBatch == BW(<<Req(T1, "put", KA @@ [l |-> Mk("L", <<>>), m |-> Mk("M", <<>>)]), Req(T1, "put", KB @@ [l |-> Mk("L", <<Mk("M", <<>>)>>)])>>)
+OnlyWhileFailing(d, e) == e = EmptiesBatch => d["c1"].fail = "internal"
 T2 == "tbl2"
 SetupDef == << AddTable("c1", T1, "h", ""), AddTable("c1", T2, "h", "") >>
 MenuDef == SetToSeq(
@@ -31,6 +35,8 @@ MenuDef == SetToSeq(
          BW(<<Req(T1, "put", KA), Req(T1, "del", KB)>>),
          BW(<<Req(T1, "put", KA), Req(T2, "put", KB), Req(T1, "put", KB @@ [v |-> Num(1)]), Req(T2, "del", KA)>>),   \* two tables, two requests each
          BW(<<Req(T2, "put", KA @@ [v |-> Num(1)]), Req(T1, "del", KA)>>),
+         BW(<<Req("tblx", "put", KA), Req(T1, "put", KB @@ [v |-> Num(1)])>>),      \* one request names a table that does not exist
+         EmptiesBatch,
          Fail("c1", "none"), Fail("c1", "internal"), Fail("c1", "deprecated"), Fail("c1", "deactivate") } )
 BoundDef(d) == TRUE
 =============================================================================
